@@ -359,7 +359,7 @@ def _weave_fn(text, fs, fid, dserves, log, where, meta, in_trait_impl):
         raise ExtractError("%s: fn without body" % where)
     serves = fs.serves if fs.serves is not None else dserves
     entry = dict(id=fid, serves=serves, labels={}, loops=0, panics=0,
-                 requires=len(fs.requires), where=where)
+                 requires=len(fs.requires), requires_text=[" ".join(e.split())[:300] for _l, e in fs.requires], where=where)
     meta["functions"].append(entry)
 
     # loops (insert from last to first so positions stay valid)
